@@ -177,12 +177,14 @@ Definition is_bpo (c : chann) (x : before) : bool :=
 Definition both_po (a b : site) : bool :=
   existsb (fun x => match x with BPO c => existsb (is_bpo c) (eff_before b) | BGuard _ _ => false end) (eff_before a).
 
+(* written with [if] so that evaluation is lazy under vm_compute *)
 Definition compatible (tb : table) (a b : site) : bool :=
-  common_lock a b || ordered_by tb a b || ordered_by tb b a || both_po a b.
+  if common_lock a b then true else if ordered_by tb a b then true
+  else if ordered_by tb b a then true else both_po a b.
 
 Definition is_write (s : site) : bool := match s_kind s with KW => true | KR => false end.
 Definition conflict (a b : site) : bool :=
-  String.eqb (s_loc a) (s_loc b) && (is_write a || is_write b).
+  if String.eqb (s_loc a) (s_loc b) then (if is_write a then true else is_write b) else false.
 
 (* recorded findings: (location, function, function) *)
 Definition known := list (locn * string * string).
@@ -193,7 +195,7 @@ Definition is_known (K : known) (a b : site) : bool :=
    end) K.
 
 Definition pair_ok (tb : table) (K : known) (a b : site) : bool :=
-  negb (conflict a b) || compatible tb a b || is_known K a b.
+  if conflict a b then (if compatible tb a b then true else is_known K a b) else true.
 
 Definition check_except (K : known) (tb : table) : bool :=
   forallb (fun a => forallb (fun b => pair_ok tb K a b) (t_sites tb)) (t_sites tb).
@@ -208,4 +210,4 @@ Definition violations (K : known) (tb : table) : list (string * string * string)
 (* every recorded pair really is a conflicting, incompatible pair of the table *)
 Definition known_is_violation (tb : table) (K : known) : bool :=
   forallb (fun k => existsb (fun a => existsb (fun b =>
-     is_known [k] a b && conflict a b && negb (compatible tb a b)) (t_sites tb)) (t_sites tb)) K.
+     if is_known [k] a b then (if conflict a b then negb (compatible tb a b) else false) else false) (t_sites tb)) (t_sites tb)) K.
